@@ -125,3 +125,113 @@ Proof.
 Qed.
 
 End Userinfo.
+
+(* ================= host ================= *)
+(* a host argument the scan of parse_host takes whole: no TAB/LF/CR, none of ':' '/' '?' '#' (and '\' for a
+   special scheme), no bracket *)
+Definition hostc (sp : bool) (c : N) : bool :=
+  negb (is_tnl c) && negb (host_stop sp false c) && negb (c =? 91) && negb (c =? 93).
+(* what may follow: nothing, or a character at which the scan stops *)
+Definition host_tail (sp : bool) (X : list N) : Prop :=
+  match X with [] => True | c :: _ => is_tnl c = false /\ host_stop sp false c = true end.
+
+Lemma host_scan_raw sp t : forall acc X, forallb (hostc sp) t = true -> host_tail sp X ->
+  host_scan sp false acc (t ++ X) = (rev acc ++ t, X).
+Proof.
+  induction t as [|c t IH]; intros acc X Ht HX.
+  - cbn [app]. rewrite app_nil_r. destruct X as [|c r]; [reflexivity|]. destruct HX as [H1 H2].
+    cbn [host_scan]. rewrite H1. fold (host_stop sp false c). rewrite H2. reflexivity.
+  - cbn [forallb] in Ht. apply andb_true_iff in Ht. destruct Ht as [Hc Ht]. unfold hostc in Hc.
+    apply andb_true_iff in Hc. destruct Hc as [Hc H93]. apply andb_true_iff in Hc. destruct Hc as [Hc H91].
+    apply andb_true_iff in Hc. destruct Hc as [H1 H2]. apply negb_true_iff in H1, H2, H91, H93.
+    cbn [app host_scan]. rewrite H1. fold (host_stop sp false c). rewrite H2, H91, H93.
+    rewrite IH by assumption. cbn [rev]. rewrite <- app_assoc. reflexivity.
+Qed.
+
+Theorem parse_host_raw hp hpo st t X : st_is_file st = false ->
+  forallb (hostc (st_is_special st)) t = true -> host_tail (st_is_special st) X ->
+  parse_host hp hpo st (t ++ X)
+  = if scheme_type_eqb st STSpecialNotFile && (match t with [] => true | _ => false end) then PErr EmptyHost
+    else host <~ of_result ((if st_is_special st then hp else hpo) t) ;; POk (host, X).
+Proof.
+  intros Hnf Ht HX. unfold parse_host. rewrite Hnf. rewrite (host_scan_raw _ t [] X Ht HX). cbn [rev app].
+  destruct (scheme_type_eqb st STSpecialNotFile && match t with [] => true | _ => false end); [reflexivity|].
+  destruct (st_is_special st); reflexivity.
+Qed.
+
+Lemma find_byte_aux_none b l : forall i, forallb (fun c => negb (c =? b)) l = true -> find_byte_aux b l i = None.
+Proof.
+  induction l as [|x r IH]; intros i H; [reflexivity|]. cbn [forallb] in H. apply andb_true_iff in H. destruct H as [H1 H2].
+  apply negb_true_iff in H1. cbn [find_byte_aux]. rewrite H1. apply IH. exact H2.
+Qed.
+
+(* ================= path ================= *)
+(* the path states in the contexts UrlParser and Setter differ only at '?' and '#': on an argument free of
+   both, followed by nothing or by '?' / '#', the parser context does what the setter context does on the
+   argument alone, and hands the rest on *)
+Definition qh_tail (X : list N) : Prop := match X with [] => True | c :: _ => ((c =? 63) || (c =? 35)) = true end.
+Definition no_qhc (c : N) : bool := negb ((c =? 63) || (c =? 35)).
+
+Definition with_rem {A B} (X : list N) (r : pres (A * B * list N)) : pres (A * B * list N) :=
+  match r with POk (s, h, _) => POk (s, h, X) | PErr e => PErr e | PPanic => PPanic end.
+
+Lemma qh_not_tnl c : ((c =? 63) || (c =? 35)) = true -> is_tnl c = false.
+Proof. unfold is_tnl. lia. Qed.
+
+Lemma path_loop_ctx dbg st ps p : forall X ser seg pend hh, forallb no_qhc p = true -> qh_tail X ->
+  parse_path_loop dbg CUrlParser st ps (p ++ X) ser seg pend hh
+  = with_rem X (parse_path_loop dbg CSetter st ps p ser seg pend hh).
+Proof.
+  induction p as [|c p IH]; intros X ser seg pend hh Hp HX.
+  - cbn [app]. destruct X as [|c r].
+    + cbn [parse_path_loop]. change (push_pending CUrlParser st ser pend) with (push_pending CSetter st ser pend).
+      destruct (finish_segment dbg st ps (push_pending CSetter st ser pend) seg false hh) as [[s2 h2]| |]; reflexivity.
+    + cbn [qh_tail] in HX. cbn [parse_path_loop]. rewrite (qh_not_tnl c HX).
+      assert ((c =? 47) || ((c =? 92) && st_is_special st) = false) as E by lia.
+      cbn [ctx_eqb negb andb]. rewrite E, HX. cbn [andb].
+      change (push_pending CUrlParser st ser pend) with (push_pending CSetter st ser pend).
+      destruct (finish_segment dbg st ps (push_pending CSetter st ser pend) seg false hh) as [[s2 h2]| |]; reflexivity.
+  - cbn [forallb] in Hp. apply andb_true_iff in Hp. destruct Hp as [Hc Hp]. unfold no_qhc in Hc. apply negb_true_iff in Hc.
+    cbn [app parse_path_loop]. cbn [ctx_eqb negb andb]. rewrite Hc. cbn [andb].
+    change (push_pending CUrlParser st ser pend) with (push_pending CSetter st ser pend).
+    destruct (is_tnl c); [apply IH; assumption|].
+    destruct ((c =? 47) || ((c =? 92) && st_is_special st)).
+    + destruct (finish_segment dbg st ps (push_pending CSetter st ser pend ++ [47]) seg true hh) as [[s2 h2]| |]; cbn [pbind];
+        [apply IH; assumption | reflexivity | reflexivity].
+    + destruct (st_is_file st && (ps <? nlen ser) && is_normalized_wdl (nskipn (ps + 1) ser)); apply IH; assumption.
+Qed.
+
+Lemma inp_next_app_some p c r X : inp_next p = Some (c, r) -> inp_next (p ++ X) = Some (c, r ++ X).
+Proof.
+  unfold inp_next. induction p as [|d p IH]; cbn [drop_while app]; [discriminate|].
+  destruct (is_tnl d); [exact IH|]. intros H. inversion H; subst. reflexivity.
+Qed.
+
+(* parse_path_start: the argument does not begin with TAB/LF/CR (so that the first character the parser
+   looks at is the argument's own), or is empty *)
+Theorem path_start_ctx dbg st hh ser p X : forallb no_qhc p = true -> qh_tail X ->
+  match p with c :: _ => is_tnl c = false | [] => True end ->
+  parse_path_start dbg CUrlParser st hh ser (p ++ X) = with_rem X (parse_path_start dbg CSetter st hh ser p).
+Proof.
+  intros Hp HX H1. unfold parse_path_start, parse_path.
+  destruct p as [|c p].
+  - cbn [app]. unfold inp_split_first at 2. cbn [inp_next drop_while].
+    destruct X as [|d r].
+    + unfold inp_split_first. cbn [inp_next drop_while].
+      destruct (st_is_special st); [destruct (negb (ends_with_byte 47 ser))|]; apply (path_loop_ctx dbg st _ [] []); try exact I; reflexivity.
+    + cbn [qh_tail] in HX. unfold inp_split_first. rewrite (inp_next_cons d r (qh_not_tnl d HX)).
+      assert (is_slash_or_bslash d = false) as Es by (unfold is_slash_or_bslash; lia).
+      destruct (st_is_special st) eqn:Esp.
+      * destruct (negb (ends_with_byte 47 ser)); [rewrite Es|]; apply (path_loop_ctx dbg st _ [] (d :: r)); try exact HX; reflexivity.
+      * rewrite HX. destruct st; try discriminate Esp. cbn [parse_path_loop push_pending]. unfold finish_segment.
+        rewrite slice_o_some by lia. rewrite N.sub_diag. cbn. reflexivity.
+  - cbn [forallb] in Hp. apply andb_true_iff in Hp. destruct Hp as [Hc Hp']. unfold no_qhc in Hc. apply negb_true_iff in Hc.
+    unfold inp_split_first. rewrite (inp_next_cons c p H1). cbn [app]. rewrite (inp_next_cons c (p ++ X) H1).
+    destruct (st_is_special st).
+    + destruct (negb (ends_with_byte 47 ser)).
+      * destruct (is_slash_or_bslash c).
+        -- apply path_loop_ctx; assumption.
+        -- apply (path_loop_ctx dbg st _ (c :: p)); [cbn [forallb]; unfold no_qhc; rewrite Hc; exact Hp' | exact HX].
+      * apply (path_loop_ctx dbg st _ (c :: p)); [cbn [forallb]; unfold no_qhc; rewrite Hc; exact Hp' | exact HX].
+    + rewrite Hc. destruct (c =? 47); apply (path_loop_ctx dbg st _ (c :: p)); try exact HX; cbn [forallb]; unfold no_qhc; rewrite Hc; exact Hp'.
+Qed.
